@@ -160,6 +160,18 @@ def config_sections(ctx):
                             v = cc.args[2]
                             if isinstance(v, ast.Call) and call_name(v) == 'json.dumps' and v.args:
                                 inner = v.args[0]
+                                fstores = stores_in(fn)
+                                if isinstance(inner, ast.Name) and inner.id not in params(fn) and len([1 for s_, vv in fstores.get(inner.id, []) if vv is not None]) == 1:
+                                    # the list is computed inside the callee from a parameter: create_filename_list(<param>)
+                                    dv = [vv for s_, vv in fstores[inner.id] if vv is not None][0]
+                                    if isinstance(dv, ast.Call) and call_name(dv) == 'create_filename_list' and dv.args \
+                                            and isinstance(dv.args[0], ast.Name) and dv.args[0].id in params(fn):
+                                        a = arg_for(c, fn, dv.args[0].id, bound=False)
+                                        rec['filenames'] = ('param', 'create_filename_list(%s)' % U(a) if a is not None else None)
+                                if isinstance(inner, ast.Call) and call_name(inner) == 'create_filename_list' and inner.args \
+                                        and isinstance(inner.args[0], ast.Name) and inner.args[0].id in params(fn):
+                                    a = arg_for(c, fn, inner.args[0].id, bound=False)
+                                    rec['filenames'] = ('param', 'create_filename_list(%s)' % U(a) if a is not None else None)
                                 if isinstance(inner, ast.Name) and inner.id in params(fn):
                                     a = arg_for(c, fn, inner.id, bound=False)
                                     rec['filenames'] = ('param', U(a) if a is not None else None)
